@@ -30,7 +30,7 @@ from lv import core, model, gen, ref, canon, drive
 from lv.props import common
 
 ID = 'C17'
-BUDGET = {'quick': 16 * 14, 'thorough': 16 * 260}        # state machines (histories)
+BUDGET = {'quick': 16 * 14, 'thorough': 16 * 220}        # state machines (histories)
 WALL = {'quick': 900, 'thorough': 5400}
 RULE = ('one case = one history: a fresh SQLite database file attached with '
         '@AttachDatabase (alias logica_home; or alias vault + @Dataset("vault"), optionally '
@@ -393,10 +393,6 @@ def build_case_variants(rng):
 
 # ------------------------------------------------------------------ the session
 
-class Dead(Exception):
-    """The history cannot be continued (state of the file unknown)."""
-
-
 class Variant(object):
     def __init__(self, j, db):
         self.j = j
@@ -555,7 +551,7 @@ class Session(object):
         return '\n'.join(lines)
 
     # -- expectations
-    def expect_written(self, vi, written, ev=None, exps=None):
+    def expect_written(self, vi, written, exps=None):
         """Model update: tables of the grounded predicates in `written` get the value
         they have under variant vi (or under the overriding evaluator)."""
         v = self.variants[vi]
@@ -705,6 +701,10 @@ class Session(object):
             return 'inconclusive', 'sqlite_budget'
         except sqlite3.Error as e:
             self.dead = 'run_error'
+            if self.fails_without_ground(v, preds):
+                # the SQL of the program is broken with or without grounding: C01/C02
+                return 'inconclusive', 'program_fails_also_without_ground:' + \
+                    sqlite_class(e)
             return 'fail', [('run_error:%s:%s' % (type(e).__name__, sqlite_class(e)),
                              'executing the statements of step %r raised %s: %s' % (
                                  st_, type(e).__name__, e))]
@@ -738,6 +738,16 @@ class Session(object):
                                                           common.msg_class(msg)),
                          'the compiler refuses the program only with its @Ground '
                          'annotations: %s\n%s' % (type(e).__name__, msg))]
+
+    @staticmethod
+    def fails_without_ground(v, preds):
+        for p in preds:
+            try:
+                prog, _ = drive.compile_rules(v.plain_rules(), p)
+                drive.execute(prog)
+            except (sqlite3.Error, drive.Interrupted) + drive.DIAGNOSTICS:
+                return True
+        return False
 
     def run_labels(self, v, pred, gdeps):
         self.labels.add('run:grounded_deps=%d' % min(len(gdeps), 3))
